@@ -21,6 +21,7 @@ every state-changing op answers  <frameClocks> <passedFrames>
   spec                           -> <fnv of stdDecode of the visible bank, phase 0> <phase 1>
   back                           -> <fnv of model back canvas>
   px <x> <y>                     -> <model front px> <spec px phase 0> <spec px phase 1>
+  pxo <x> <y> <off> <val>        -> <spec px phase 0> <phase 1> <the same with screen byte off := val, phase 0> <phase 1>
   flashok (<n>:<0|1>)*           -> ok | bad      (spec: some alignment of 16-frame windows fits)
   fetch <y> <col>                -> <spec fetch clock> (decimal fields are hex like everything else)
 -/
@@ -107,6 +108,15 @@ def handle (s : St) : List String → St × String
     let y := hexNatD y
     let mem := specMem s.c
     (s, s!"{hex8 (s.c.screen.front.getD (y * 256 + x) 0xEE)} {hex8 (Spec.stdPx mem false x y)} {hex8 (Spec.stdPx mem true x y)}")
+  | ["pxo", x, y, off, v] =>
+    -- spec pixel of the current memory, and of the same memory with byte `off` replaced by `v`
+    let x := hexNatD x
+    let y := hexNatD y
+    let o := hexNatD off
+    let mem := specMem s.c
+    let mem' : Nat → BitVec 8 := fun a => if a = o then bv8 v else mem a
+    (s, s!"{hex8 (Spec.stdPx mem false x y)} {hex8 (Spec.stdPx mem true x y)} " ++
+        s!"{hex8 (Spec.stdPx mem' false x y)} {hex8 (Spec.stdPx mem' true x y)}")
   | "flashok" :: rest =>
     match rest.mapM obs? with
     | some obs => (s, if Spec.flashOk obs then "ok" else "bad")
